@@ -157,7 +157,18 @@ fn gen_history(ctx: &Ctx, rng: &mut Rng, screen: &mut Screen) -> (History, CwdPl
     k.inert_pct = *rng.pick(&[0, 0, 30]);
     k.min_eligible = rng.range(0, 2);
     let analysed = "/w/contracts";
-    let info = gen::gen_tree(rng, screen, &mut world, analysed, &k);
+    let mut info = gen::gen_tree(rng, screen, &mut world, analysed, &k);
+    // now and then a tree whose report is several hundred kilobytes long (buffering, spooling and
+    // chunking code paths only show beyond such sizes)
+    let big = rng.chance(1, 200);
+    if big {
+        let t = crate::corpus::stuffed_text(rng.below(crate::corpus::PRAGMAS.len()));
+        for i in 0..rng.range(110, 140) {
+            let p = join(analysed, &format!("big/m{:03}.sol", i));
+            world.put_file(&p, t.clone().into_bytes(), Fault::None);
+            info.eligible.push(p);
+        }
+    }
     // sometimes a run is made to fail in the middle of the walk: an eligible file whose read fails,
     // or one the parser rejects (the file-system effects of a failing run are judged all the same)
     if !info.eligible.is_empty() {
@@ -203,14 +214,18 @@ fn gen_history(ctx: &Ctx, rng: &mut Rng, screen: &mut Screen) -> (History, CwdPl
         world.mkdir_p(&join(&cwd, "solstat_report.md.d"));
     }
     // configuration file?
-    let use_toml = rng.chance(1, 2);
+    let use_toml = rng.chance(1, 2) || (big && rng.chance(1, 2));
     let toml_path = if rng.chance(1, 2) {
         join(&cwd, "cfg.toml")
     } else {
         "/w/conf/solstat.toml".to_string()
     };
     if use_toml {
-        let t = gen_toml(ctx, rng, &spelled);
+        let mut t = gen_toml(ctx, rng, &spelled);
+        if big {
+            // the shape of the shipped sample: many optimisations, one vulnerability, no qa
+            t = toml_text(&spelled, &usable_names(ctx, Cat::Opt), &usable_names(ctx, Cat::Vul)[..1].to_vec(), &[]);
+        }
         world.put_file(&toml_path, t.into_bytes(), Fault::None);
     }
     let stale_kind = if rng.chance(1, 12) { 6 } else { rng.below(6) };
@@ -314,6 +329,7 @@ pub struct Judged {
     pub mutating_calls: u64,
     pub stale_overwritten: u64,
     pub failed_runs: u64,
+    pub big_reports: u64,
     pub states: Vec<u64>,
     pub sample: Option<Value>,
 }
@@ -339,6 +355,7 @@ pub fn judge(h: &History) -> Judged {
         mutating_calls: 0,
         stale_overwritten: 0,
         failed_runs: 0,
+        big_reports: 0,
         states: vec![],
         sample: None,
     };
@@ -482,6 +499,11 @@ pub fn judge(h: &History) -> Judged {
                 return j;
             }
         }
+        if let Some((b, _)) = out.world_after.file(&report_path) {
+            if b.len() > 256 * 1024 {
+                j.big_reports += 1;
+            }
+        }
         j.states.push(hash_str(71, &out.world_after.to_json().to_string()));
         world = out.world_after;
     }
@@ -514,6 +536,7 @@ impl Property for C18 {
         r.probe("stale_report_present", stale_kind != 0 || h.steps.len() > 1);
         r.probe("rerun_after_edit", h.steps.iter().skip(1).any(|s| !s.edits.is_empty()));
         r.probe("failed_run_observed", j.failed_runs > 0);
+        r.probe("report_larger_than_256_KiB", j.big_reports > 0);
         r.interleavings.extend(j.decisions.iter().copied());
         r.states.extend(j.states.iter().copied());
         if stale_kind != 0 || h.steps.len() > 1 || place == CwdPlace::Equal {
@@ -612,6 +635,7 @@ impl Property for C18 {
             "stale_report_present",
             "rerun_after_edit",
             "failed_run_observed",
+            "report_larger_than_256_KiB",
         ]
     }
     fn rule(&self) -> String {
